@@ -32,6 +32,7 @@ class HistoryMachine(RuleBasedStateMachine):
     SELF_MERGE = False
     SAVELOAD = True
     NGRAM = True
+    LONG_LISTS = True
     REC = None  # Recorder of this shard
     HOLDER = None  # dict receiving the failing case
 
@@ -106,6 +107,13 @@ class HistoryMachine(RuleBasedStateMachine):
     @rule(i=SK, kis=st.lists(IDX, min_size=0, max_size=6), data=st.data())
     def update_list(self, i, kis, data):
         self.do({"op": "update_list", "i": i % self.N, "keys": [self.key(k) for k in kis], **self._draws(data)})
+
+    @precondition(lambda self: self.LONG_LISTS)
+    @rule(i=SK, kis=st.lists(IDX, min_size=2, max_size=5), n=st.sampled_from([255, 256, 257, 300, 1024]), data=st.data())
+    def update_long_list(self, i, kis, n, data):
+        """one update(list) with hundreds of entries: a short pattern over the universe repeated cyclically"""
+        keys = [self.key(kis[t % len(kis)]) for t in range(n)]
+        self.do({"op": "update_list", "i": i % self.N, "keys": keys, **self._draws(data)})
 
     @rule(i=SK, kis=st.lists(IDX, min_size=0, max_size=5), data=st.data())
     def update_dict(self, i, kis, data):
